@@ -64,7 +64,7 @@ def parseRcCase (line : String) : Option RcCase :=
       generation := gen.toInt!
       stCurrentReplicas := storedS.current }
     let ps := if pods == "" then [] else ((pods.splitOn ";").zipIdx).map (fun (t, i) => parsePod i t)
-    let fs : List (Nat × Int) := if faults == "" then [] else (faults.splitOn ";").map (fun t => match t.splitOn ":" with | [a, b] => (a.toNat!, b.toInt!) | _ => (9, 0))
+    let fs : List (Nat × Int) := if faults == "" then [] else (faults.splitOn ";").map (fun t => match t.splitOn ":" with | [a, b] => (a.toNat!, b.toInt!) | [a, b, _kind] => (a.toNat!, b.toInt!) | _ => (9, 0))
     some { v := v, cur := cur, upd := upd, stored := storedS, pods := ps, faults := fs.filter (·.1 != 3), statusFails := fs.contains (3, 0) }
   | _ => none
 
